@@ -46,6 +46,7 @@ theorem write_exact32_vo (f : OffsetFormat) (hf : ({ f with valueOffset := 0 } :
 def relocValue (s : State) (base : BitVec 64) (secs : List Section) (re : Reloc) : Option (BitVec 64) :=
   let site := base + secOffset secs re.srcSec + BitVec.ofNat 64 re.srcOff + BitVec.ofNat 64 re.regionSize
   match re.type with
+  | .absToAbs => some re.payload
   | .relToAbs => (re.tgtSec.bind (fun t => secs[t]?)).map (fun tgt => re.payload + (base + tgt.offset))
   | .absToRel =>
     let v := re.payload - site
@@ -120,6 +121,9 @@ theorem reloc_entry_exact (s : State) (hr : RInv s) (base : BitVec 64) (re : Rel
         rw [hev] at hv; cases hv
         simp only [he, hev] at hok
         exact key _ hok
+  · -- absToAbs
+    cases hv
+    exact key _ hok
   · -- relToAbs
     cases ht : re.tgtSec.bind (fun t => s.secs[t]?) with
     | none => rw [ht] at hv; cases hv
